@@ -36,6 +36,13 @@ impl FlatForwardInterpolator {
 
 impl CurveInterpolation for FlatForwardInterpolator {
     fn interpolated_value(&self, nodes: &NodesTimestamp, date: &NaiveDateTime) -> Number {
+        #[cfg(rateslib_verif)]
+        if crate::verif::trace::active() {
+            let r = crate::verif::trace::suspended(|| self.interpolated_value(nodes, date));
+            let i = crate::verif::trace::suspended(|| self.node_index(nodes, date.and_utc().timestamp()));
+            crate::verif::trace::curve_lookup("flat_forward", nodes, date, i, &r, None);
+            return r;
+        }
         let x = date.and_utc().timestamp();
         let index = self.node_index(nodes, x);
         macro_rules! interp {
